@@ -149,14 +149,16 @@ def _final_ok(before, after, clean_after, what_prefix):
 
 
 def sync_fault_points(rng, n_scn):
-    """for each scenario: the fault-free outcome, then one run per (target, fault kind) and per conversion error"""
+    """for each scenario: the fault-free outcome with the I/O operations of every emit.file call logged, then one run
+    per (target, operation index, k) and one per conversion error"""
     fails, evals, hist = [], 0, collections.Counter()
     for _ in range(n_scn):
         scn = L.gen_scenario(rng, runs=1)
         if not scn["targets"]:
             continue
-        # fault-free reference
+        # fault-free reference, logging the operations of each target's write
         root = tempfile.mkdtemp(prefix="doctrans-verif-c20.")
+        oplogs = {}
         try:
             proj = L.build_project(scn, root)
             before = L.snapshot(root)
@@ -164,29 +166,35 @@ def sync_fault_points(rng, n_scn):
             clean_after = L.snapshot(root)
         finally:
             shutil.rmtree(root, ignore_errors=True)
-        lens = {f: len(b) for f, b in clean_after.items()}
-        plans = []
         for k in sorted(scn["targets"]):
-            f = k + ".py"
-            if clean_after.get(f) == before.get(f):
-                continue   # no write happens for this target
-            n = lens.get(f, 10)
-            ks = sorted({0, 1, max(1, n // 2), max(1, n - 1)})
-            plans += [("io", k, "fail-open-tmp"), ("io", k, "fail-replace"), ("io", k, "fail-read-old")] + [("io", k, ("fail-write-tmp", x)) for x in ks]
+            if clean_after.get(L.file_of(k)) == before.get(L.file_of(k)):
+                continue
+            root = tempfile.mkdtemp(prefix="doctrans-verif-c20.")
+            try:
+                proj = L.build_project(scn, root)
+                fo = L.Fault(L.file_of(k), None)
+                L.run_api(scn, proj["paths"], L.Recorder(), fo)
+                oplogs[k] = list(fo.ops)
+            finally:
+                shutil.rmtree(root, ignore_errors=True)
+        plans = []
+        for k, ops in oplogs.items():
+            plans += [("io", k, pt) for pt in L.fault_points(ops)]
             plans.append(("conv", k, None))
-        for kind, k, fk in plans:
+        for kind, k, pt in plans:
             root = tempfile.mkdtemp(prefix="doctrans-verif-c20.")
             try:
                 proj = L.build_project(scn, root)
                 b4 = L.snapshot(root)
+                desc = None
                 if kind == "io":
-                    fo = L.Fault(fk, k + ".py")
-                    rec = L.Recorder()
-                    run = L.run_api(scn, proj["paths"], rec, fo)
+                    fo = L.Fault(L.file_of(k), pt[0], pt[1])
+                    run = L.run_api(scn, proj["paths"], L.Recorder(), fo)
                     fired = fo.fired
+                    desc = "%s %s" % (fo.fired_op, "k=%d" % pt[1] if fo.fired_op and fo.fired_op[0] == "write" else "")
                 else:
                     m = impl()
-                    name = {"class": "class_", "function": "function", "argparse_function": "argparse_function"}[k]
+                    name = {"class": "class_", "function": "function", "argparse_function": "argparse_function"}[L.kind_of(k)]
                     orig = getattr(m.emit, name)
 
                     def boom(*a, **kw):
@@ -198,6 +206,7 @@ def sync_fault_points(rng, n_scn):
                     finally:
                         setattr(m.emit, name, orig)
                     fired = True
+                    desc = "conversion error"
                 aft = L.snapshot(root)
             finally:
                 shutil.rmtree(root, ignore_errors=True)
@@ -205,52 +214,65 @@ def sync_fault_points(rng, n_scn):
                 hist["fault-not-reached"] += 1
                 continue
             evals += 1
-            hist["%s:%s" % (kind, fk if isinstance(fk, str) else (fk[0] if fk else "emit-raises"))] += 1
+            hist["%s:%s" % (kind, (fo.fired_op[0] + "-" + fo.fired_op[1]) if kind == "io" else "emit-raises")] += 1
+            case = {"scenario": scn, "fault": [kind, k, list(pt) if pt else None]}
             if run["exception"] is None and kind == "io":
-                fails.append({"case": {"scenario": scn, "fault": [kind, k, fk]}, "what": "the injected I/O error was swallowed", "class": None})
-            for w in _final_ok(b4, aft, clean_after, "sync with %s at %s" % (fk or "conversion error", k)):
-                fails.append({"case": {"scenario": scn, "fault": [kind, k, list(fk) if isinstance(fk, tuple) else fk]}, "what": w, "class": None})
+                fails.append({"case": case, "what": "the injected I/O error (%s) was swallowed" % desc, "class": None})
+            for w in _final_ok(b4, aft, clean_after, "sync with %s at %s" % (desc, k)):
+                fails.append({"case": case, "what": w, "class": None})
     return fails, evals, hist
 
 
 def sync_properties_fault_points(rng):
     fails, evals = [], 0
     m = impl()
-    for fk in ["fail-open-tmp", "fail-replace", ("fail-write-tmp", 0), ("fail-write-tmp", 5), ("fail-write-tmp", 10 ** 6)]:
+
+    def run_once(fo, root):
+        inp, outp = os.path.join(root, "in.py"), os.path.join(root, "out.py")
+        open(inp, "w").write("a: Literal['x', 'y'] = 'x'\n")
+        open(outp, "w").write("import os\n\n\ndef f(g: str = 'x', h=2):\n    return g\n")
+        before = L.snapshot(root)
+        orig_file = m.emit.file
+
+        def file(node, filename, mode="a", skip_black=False):
+            fo.arm(filename)
+            try:
+                return orig_file(node, filename, mode=mode, skip_black=skip_black)
+            finally:
+                fo.disarm()
+        m.sync_properties.emit.file = file
+        exc = None
+        try:
+            m.sync_properties.sync_properties(input_eval=False, input_filename=inp, input_params=["a"], output_filename=outp,
+                                              output_params=["f.g"])
+        except Exception as e:  # noqa
+            exc = exc_kind(e)
+        finally:
+            m.sync_properties.emit.file = orig_file
+        return before, L.snapshot(root), exc
+
+    root = tempfile.mkdtemp(prefix="doctrans-verif-c20.")
+    try:
+        fo = L.Fault("out.py", None)
+        _, clean_after, _ = run_once(fo, root)
+        ops = list(fo.ops)
+    finally:
+        shutil.rmtree(root, ignore_errors=True)
+    for pt in L.fault_points(ops):
         root = tempfile.mkdtemp(prefix="doctrans-verif-c20.")
         try:
-            inp, outp = os.path.join(root, "in.py"), os.path.join(root, "out.py")
-            open(inp, "w").write("a: Literal['x', 'y'] = 'x'\n")
-            open(outp, "w").write("import os\n\n\ndef f(g: str = 'x', h=2):\n    return g\n")
-            before = L.snapshot(root)
-            fo = L.Fault(fk, "out.py")
-            orig_file = m.emit.file
-
-            def file(node, filename, mode="a", skip_black=False):
-                fo.arm(filename)
-                try:
-                    return orig_file(node, filename, mode=mode, skip_black=skip_black)
-                finally:
-                    fo.disarm()
-            m.sync_properties.emit.file = file
-            exc = None
-            try:
-                m.sync_properties.sync_properties(input_eval=False, input_filename=inp, input_params=["a"], output_filename=outp,
-                                                  output_params=["f.g"])
-            except Exception as e:  # noqa
-                exc = exc_kind(e)
-            finally:
-                m.sync_properties.emit.file = orig_file
-            after = L.snapshot(root)
-            evals += 1
-            if exc is None:
-                fails.append({"case": {"command": "sync_properties", "fault": fk}, "what": "the injected I/O error was swallowed", "class": None})
-            if after != before:
-                fails.append({"case": {"command": "sync_properties", "fault": list(fk) if isinstance(fk, tuple) else fk},
-                              "what": "sync_properties with %s: files changed although the write failed: %s" % (
-                                  fk, sorted(f for f in set(before) | set(after) if before.get(f) != after.get(f))), "class": None})
+            fo = L.Fault("out.py", pt[0], pt[1])
+            before, after, exc = run_once(fo, root)
         finally:
             shutil.rmtree(root, ignore_errors=True)
+        if not fo.fired:
+            continue
+        evals += 1
+        case = {"command": "sync_properties", "fault": list(pt)}
+        if exc is None:
+            fails.append({"case": case, "what": "the injected I/O error was swallowed", "class": None})
+        for w in _final_ok(before, after, clean_after, "sync_properties with %s" % (fo.fired_op,)):
+            fails.append({"case": case, "what": w, "class": None})
     return fails, evals
 
 
